@@ -1,12 +1,14 @@
 /-
-  RoModel.Plugins.Reader — plugins/stdio/source.go:30-53 (`NewIOReader`) and :57-83
-  (`NewIOReaderLine`).
+  RoModel.Plugins.Reader — plugins/stdio/source.go `NewIOReader` (buffer, `Read` loop, one fresh
+  chunk per read) and `NewIOReaderLine`.
 
   An `io.Reader` is a script of `Read` results: the bytes it copied to the front of the caller's
   buffer together with the error it returned (`none`, EOF or another error).  The io.Reader
-  contract allows `n > 0` together with an error.  `NewIOReader` allocates ONE buffer of
-  `IOReaderBufferSize` bytes per subscription and hands `buf[:n]` to the observer after every
-  successful read — every delivered slice is a window on that same array.
+  contract allows `n > 0` together with an error.  `NewIOReader` allocates one buffer of
+  `IOReaderBufferSize` bytes per subscription; after every `Read` it copies `buf[:n]` into a NEW
+  array and hands that to the observer (when `n > 0`, or when there was no error), then looks at
+  the error.  A fresh array is never written again, so a chunk is modelled by the bytes copied
+  into it — taken from the shared buffer as it stood after that `Read`.
 -/
 import RoModel.Machine
 import RoModel.Plugins.Bytes
@@ -30,41 +32,37 @@ inductive Term
 deriving DecidableEq, Repr
 
 structure Run where
-  buf : Bytes                 -- the one buffer
-  lens : List Nat := []       -- lengths of the delivered windows `buf[:n]`, in order
-  delivered : List Bytes := []  -- what each window showed when it was delivered
+  buf : Bytes                 -- the one read buffer
+  chunks : List Bytes := []   -- the fresh arrays handed to the observer, in order
   term : Term := .none
 deriving Repr
 
+/-- `reader.Read(buf)` wrote `data` to the front of the buffer -/
 def overwrite (buf : Bytes) (data : Bytes) : Bytes := data ++ buf.drop data.length
 
-/-- source.go:34-45 -/
+/-- the loop of `NewIOReader` -/
 def ioReader : Run → List Read → Run
   | r, [] => r
   | r, rd :: rest =>
-    let buf := overwrite r.buf rd.data       -- reader.Read(buf) wrote n bytes
+    let buf := overwrite r.buf rd.data
+    -- `if n > 0 || err == nil { chunk := make([]byte, n); copy(chunk, buf[:n]); Next(chunk) }`
+    let chunks := if rd.data.length > 0 ∨ rd.err.isNone then r.chunks ++ [buf.take rd.data.length] else r.chunks
     match rd.err with
-    | some .eof => { r with buf := buf, term := .complete }        -- the n bytes are not looked at
-    | some (.other k) => { r with buf := buf, term := .error k }
-    | none => ioReader { r with buf := buf, lens := r.lens ++ [rd.data.length], delivered := r.delivered ++ [rd.data] } rest
+    | some .eof => { buf := buf, chunks := chunks, term := .complete }
+    | some (.other k) => { buf := buf, chunks := chunks, term := .error k }
+    | none => ioReader { buf := buf, chunks := chunks, term := r.term } rest
 
 def bufSize : Nat := 1024
 
 def runIOReader (script : List Read) : Run := ioReader { buf := List.replicate bufSize 0 } script
 
-/-- what an observer that kept the delivered slices sees in them after the run -/
-def Run.retained (r : Run) : List Bytes := r.lens.map (fun n => r.buf.take n)
-
-/-- the repaired reader (repo_fixes/C18-stdio-reader.patch): a copy per chunk, and the bytes
-    that arrive together with an error are delivered first -/
-def ioReaderFixed : List Bytes → List Read → List Bytes × Term
-  | acc, [] => (acc, .none)
-  | acc, rd :: rest =>
-    let acc' := if rd.data.length > 0 then acc ++ [rd.data] else acc
-    match rd.err with
-    | some .eof => (acc', .complete)
-    | some (.other k) => (acc', .error k)
-    | none => ioReaderFixed (acc ++ [rd.data]) rest
+/-- what each read that is handed on carried: every read without error, and the erroring read
+    when it also returned bytes; nothing after the first error -/
+def handedOn : List Read → List Bytes
+  | [] => []
+  | rd :: rest => match rd.err with
+    | some _ => if rd.data.length > 0 then [rd.data] else []
+    | none => rd.data :: handedOn rest
 
 /-- all bytes the reader produced up to and including the read that returned an error -/
 def produced : List Read → Bytes
@@ -73,8 +71,8 @@ def produced : List Read → Bytes
     | some _ => rd.data
     | none => rd.data ++ produced rest
 
-/-- `NewIOReaderLine`: one fresh copy per `ReadLine` result (source.go:72-74); `bufio` is not
-    modelled, the line splitting enters as the list of results -/
+/-- `NewIOReaderLine`: one fresh copy per `ReadLine` result; `bufio` is not modelled, the line
+    splitting enters as the list of results -/
 def lineReader (lines : List Bytes) : List Bytes := lines.map (fun l => l.map id)
 
 end Ro.Plugins.Reader
